@@ -49,6 +49,7 @@ func PlacementFileG(pkg, goName string, g PlacementGroup) (*spec.File, []*PlaceC
 	number64 := false
 	jsonName := "" // explicit json_name of the URL-bound field ("" = protoc's default)
 	qname, qshape := "vx", ""
+	fieldName := "val_x" // proto name of the URL-bound field
 	add := func(where string, k spec.T, cd spec.Card, verb string) {
 		n++
 		kn := spec.KindName(k)
@@ -57,9 +58,9 @@ func PlacementFileG(pkg, goName string, g PlacementGroup) (*spec.File, []*PlaceC
 		}
 		mname := fmt.Sprintf("Op%d", n)
 		req := &spec.Message{Name: mname + "Req"}
-		fld := spec.F("val_x", 1, k)
+		fld := spec.F(fieldName, 1, k)
 		if k == spec.Enum {
-			fld = spec.FE("val_x", 1, "."+pkg+".PEnum")
+			fld = spec.FE(fieldName, 1, "."+pkg+".PEnum")
 		}
 		switch cd {
 		case spec.Optional:
@@ -74,11 +75,14 @@ func PlacementFileG(pkg, goName string, g PlacementGroup) (*spec.File, []*PlaceC
 			fld.JSON = jsonName
 			kn += "~json_name"
 		}
-		pc := &PlaceCase{Where: where, Kind: kn, Card: cd.String(), Verb: verb, Svc: pkg + ".PlaceService", Method: mname, In: pkg + "." + req.Name, Out: pkg + ".PlaceResp", Field: "val_x"}
+		if fieldName != "val_x" {
+			kn += "~field=" + fieldName
+		}
+		pc := &PlaceCase{Where: where, Kind: kn, Card: cd.String(), Verb: verb, Svc: pkg + ".PlaceService", Method: mname, In: pkg + "." + req.Name, Out: pkg + ".PlaceResp", Field: fieldName}
 		path := fmt.Sprintf("/o%d", n)
 		switch where {
 		case "path":
-			path += "/{val_x}/tail"
+			path += "/{" + fieldName + "}/tail"
 		case "query":
 			fld.Q(qname)
 			pc.QueryKey = qname
@@ -106,6 +110,21 @@ func PlacementFileG(pkg, goName string, g PlacementGroup) (*spec.File, []*PlaceC
 				add("path", k, spec.Singular, v)
 			}
 		}
+	}
+	if g.FieldNames {
+		// valid proto field names that are not lower snake_case: the binding must name the field as declared
+		for _, fn := range []struct {
+			name string
+			k    spec.T
+		}{{"itemId", spec.String}, {"shelfNo", spec.Int32}, {"ID", spec.String}, {"userID", spec.Int64}, {"x1", spec.String}, {"a_B", spec.String}} {
+			fieldName = fn.name
+			for _, v := range []string{"GET", "POST", "PUT"} {
+				add("path", fn.k, spec.Singular, v)
+			}
+			add("query", fn.k, spec.Singular, "GET")
+		}
+		fieldName = "val_x"
+		return f, cases
 	}
 	if g.PathOpt {
 		// a path variable bound to a proto3 optional field (a pointer in the Go struct, `?:` in TS)
@@ -171,6 +190,7 @@ type PlacementGroup struct {
 	NameShapes bool // query fields under every QueryNameShapes spelling instead of the neutral "vx"
 	JSONNames  bool // path and query fields with an explicit json_name
 	PathOpt    bool // path variables bound to proto3 optional fields
+	FieldNames bool // URL-bound fields whose proto name is not lower snake_case (itemId, shelfNo, ID, x1)
 }
 
 // PlacementGroups lists the packages of the placement catalogue.
@@ -191,5 +211,6 @@ func PlacementGroups() []PlacementGroup {
 		{Label: "qopt", QueryKinds: all, Cards: []spec.Card{spec.Optional}},
 		{Label: "qrep", QueryKinds: all, Cards: []spec.Card{spec.Repeated}},
 		{Label: "popt", PathOpt: true},
+		{Label: "fnames", FieldNames: true},
 	}
 }
